@@ -4,7 +4,7 @@
     _build_tree_nuts over an abstract phase space with oracles).  This file only states the
     property theorems; proofs are in Proofs/C09_Metropolis.v, C09_Nuts.v, C09_Float.v.
     Determinism in the seed is by construction: both models are functions of the draw list. *)
-From Coq Require Import List Bool Arith Floats.
+From Coq Require Import List Bool Arith ZArith Floats.
 From Elfi Require Import Num.Mcmc Num.Nuts Proofs.C09_Metropolis Proofs.C09_Nuts Proofs.C09_Float.
 Import ListNotations.
 
@@ -94,6 +94,44 @@ Theorem C09_metropolis_model_ok :
 Proof. exact metropolis_model_ok. Qed.
 Print Assumptions C09_metropolis_model_ok.
 
+(** Starting points and proposal scales in any storage (wave 2): the entry point started from an
+    int64 / int32 / float32 / float16 / bool array or a Python sequence is the double-precision spec
+    chain started from the binary64 values of those numbers; nothing else of the storage matters. *)
+Theorem C09_metropolis_entry_refines_spec :
+  forall target expf sigma_in n w start st,
+    metropolis_entry target expf sigma_in n w start st
+    = spec target expf (map to_f64 sigma_in) n w (map to_f64 start) st.
+Proof. exact entry_refines_spec. Qed.
+Print Assumptions C09_metropolis_entry_refines_spec.
+
+Theorem C09_metropolis_entry_storage_independent :
+  forall target expf g1 g2 n w s1 s2 st,
+    map to_f64 s1 = map to_f64 s2 -> map to_f64 g1 = map to_f64 g2 ->
+    metropolis_entry target expf g1 n w s1 st = metropolis_entry target expf g2 n w s2 st.
+Proof. exact entry_storage_independent. Qed.
+Print Assumptions C09_metropolis_entry_storage_independent.
+
+Theorem C09_metropolis_entry_as_f64 :
+  forall target expf sigma_in n w start st,
+    metropolis_entry target expf sigma_in n w start st
+    = metropolis_entry target expf (map NF (map to_f64 sigma_in)) n w (map NF (map to_f64 start)) st.
+Proof. exact entry_as_f64. Qed.
+Print Assumptions C09_metropolis_entry_as_f64.
+
+Theorem C09_metropolis_entry_model_ok :
+  forall target expf sigma_in n w start st,
+    let x0 := map to_f64 start in
+    let sigma := map to_f64 sigma_in in
+    match metropolis_entry target expf sigma_in n w start st with
+    | Chain l => length l = n /\ (finite_at target x0 -> Forall (finite_at target) l)
+                 /\ exists ds, pairs (n + w) st = Some ds /\ l = skipn w (scan target expf sigma x0 ds)
+                               /\ walk target expf sigma x0 ds (scan target expf sigma x0 ds)
+    | BadInit => is_infinity (target x0) = true
+    | StreamError => pairs (n + w) st = None
+    end.
+Proof. exact entry_model_ok. Qed.
+Print Assumptions C09_metropolis_entry_model_ok.
+
 (** The decidable predicate evaluated on the implementation's recorded run is sound. *)
 Theorem C09_metropolis_ok_sound : forall c, Mcmc.ok c = true -> property_holds c.
 Proof. exact ok_sound. Qed.
@@ -177,6 +215,18 @@ Example C09_metropolis_example :
   = Chain [[0x1p-2%float]; [0x1.8p-1%float]]
   /\ is_finite (tg [0x1p-1%float]) = true.
 Proof. vm_compute. split; reflexivity. Qed.
+
+(** A run started from a 1-element integer array: the start 0 stored as an int, the scale 1
+    stored as an int, proposal 0 + 1 * 0.75 = 0.75 accepted: the state is 0.75 in
+    double precision, not its truncation to the start's integer type. *)
+Example C09_metropolis_example_int_start :
+  let tg := lookup_t [([0]%float, 0%float); ([0x1.8p-1]%float, (-0x1.2p-2)%float)] in
+  let ex := lookup_e [((-0x1.2p-2)%float, 0x1.8276b9e2d2d4fp-1%float)] in
+  metropolis_entry tg ex [NI 1%Z] 1 0 [NI 0%Z] [DN [0x1.8p-1%float]; DU 0x1p-1%float]
+  = Chain [[0x1.8p-1%float]]
+  /\ to_f64 (NI (-3)%Z) = (-3)%float /\ to_f64 (NI 0%Z) = 0%float
+  /\ to_f64 (NI 9007199254740993%Z) = 0x1p+53%float.
+Proof. vm_compute. repeat split; reflexivity. Qed.
 
 (** NUTS: the toy instance (Proofs/C09_Nuts.v, module Toy) satisfies all four hypotheses of
     [C09_nuts_support], and the model runs to a chain that moves, goes backwards and builds a
